@@ -21,7 +21,9 @@ def run(ctx, report):
                               "generated streams", structural, ctx, report)
     from . import scc_read_fold, scc_e2e_fold
     # read() folded around a stubbed decoder: every list of up to N prepared captions over the boundary row lengths
-    report.section("read() on prepared captions", scc_read_fold.run, ctx, report, {
+    # (the stubbed decoder presumes where read() finds the stored captions: when that does not fold, the end-to-end part decides)
+    report.structural_section("read() on prepared captions", "R-E2E: the whole reader on generated streams in the three caption modes",
+                              scc_read_fold.run, ctx, report, {
         "length": ("R-MUSTRAISE", "3", "a row longer than 32 characters anywhere in the stash raises CaptionLineLengthError; "
                                        "otherwise the captions are returned"),
         "message": ("R-MUSTRAISE", "1", "the error message names every offending row with its length"),
